@@ -370,7 +370,7 @@ pub fn campaigns(ctx: &Ctx) -> Stats {
         let kinds = 24u64;
         let shapes: Vec<Vec<usize>> = vec![vec![5], vec![2, 3], vec![3, 1, 2], vec![9]];
         let seed_salt = ctx.seed.wrapping_mul(0x9E3779B1);
-        st.merge(ctx.run_indexed("wide-magnitudes", kinds * shapes.len() as u64 * t.pick(150, 4000), None, |i| {
+        st.merge(ctx.run_indexed("wide-magnitudes", kinds * shapes.len() as u64 * t.pick(600, 8000), None, |i| {
             let d = shapes[((i / kinds) % shapes.len() as u64) as usize].clone();
             let n = numel(&d);
             let z = mix(i ^ 0xC02 ^ seed_salt);
@@ -471,7 +471,7 @@ pub fn campaigns(ctx: &Ctx) -> Stats {
         }));
     }
     // random values / sizes / parameters
-    let (max_rank, max_size, total) = t.pick((4usize, 7usize, 60000u64), (5, 10, 1200000));
+    let (max_rank, max_size, total) = t.pick((4usize, 7usize, 240000u64), (5, 10, 1200000));
     let strat = move || {
         (0..17usize, prop::collection::vec(1..=max_size, 1..=max_rank), any::<[u8; 4]>(), -3.0f64..4.0, any::<u64>(), any::<u8>())
             .prop_map(|(opi, dims, p, e, vseed, tr)| RandRecipe { opi, dims, p, e: (e * 64.0).round() / 64.0, vseed, tr })
